@@ -475,7 +475,7 @@ def scanner_guards(P, chk):
             if not (len(orderings) >= 2 or ranges or (orderings and flag)):
                 bad.append("%d ordering test(s), %d range test(s), digit flag %s" % (len(orderings), ranges, flag))
         chk.require(first > 0 and not bad, R_GUARD, "from_str|leading group of one to three digits", b.loc(sb),
-                    ("no path takes the first comma with comma_pos None" if not first else
+                    ("no first-comma path is visible in this picture of the code: the test sits in a closure / helper this view keeps apart (the written-out views decide), or no path takes the grouping transition with comma_pos None" if not first else
                      "a first comma is accepted under %s: the leading group is bounded on one side only (`,250` or `1234,567` is "
                      "accepted)" % (bad or ["-"])[0]),
                     "on every first-comma path: two ordering tests, or one plus a digit-seen flag, or a range test (%d paths)" % first)
